@@ -9,7 +9,8 @@ Import ListNotations.
 Local Open Scope Z_scope.
 
 (* ------------------------------------------------------------------ trees that differ only in IsExpEmpty flags *)
-Definition veq (v v' : ventry) : Prop := v_name v' = v_name v /\ v_loc v' = v_loc v /\ v_ref v' = v_ref v.
+Definition veq (v v' : ventry) : Prop :=
+  v_name v' = v_name v /\ (v_loc v' = v_loc v /\ v_init v' = v_init v /\ v_tab v' = v_tab v) /\ v_ref v' = v_ref v.
 Inductive seq : scope -> scope -> Prop :=
 | seq_intro l vs vs' ss ss' : Forall2 veq vs vs' -> Forall2 seq ss ss' -> seq (Scope l vs ss) (Scope l vs' ss').
 
@@ -110,7 +111,7 @@ Section Transfer.
   Qed.
 
   Lemma var_hit_veq v v' : veq v v' -> var_hit n pl v' = var_hit n pl v.
-  Proof. intros (Hn & Hl & Hr). unfold var_hit, is_correct_position. rewrite Hn, Hl, Hr. reflexivity. Qed.
+  Proof. intros (Hn & (Hl & Hi & Ht) & Hr). unfold var_hit, is_correct_position, init_hides. rewrite Hn, Hl, Hr, Hi, Ht. reflexivity. Qed.
 
   Lemma find_veq f f' : Forall2 veq f f' ->
     match find (var_hit n pl) f with
@@ -187,12 +188,12 @@ Proof.
   assert (Hstrip : find_loc_var (c ++ [[]]) (s_name o) (pl (sl (s_loc o)) col) = find_loc_var c (s_name o) (pl (sl (s_loc o)) col)).
   { rewrite flv_last. destruct (find_loc_var c (s_name o) (pl (sl (s_loc o)) col)); reflexivity. }
   unfold EnvC, bindok in *. destruct (is_decl (s_role o)).
-  - destruct He as (v & Hfv & Hvl). rewrite Hstrip in Hfv. rewrite Hfv in Hf. destruct Hf as (v' & Hf' & (_ & Hl & _)).
+  - destruct He as (v & Hfv & Hvl). rewrite Hstrip in Hfv. rewrite Hfv in Hf. destruct Hf as (v' & Hf' & (_ & (Hl & _) & _)).
     rewrite Hf'. cbn [option_map]. rewrite Hl, Hvl. rewrite Hb in Hbo. injection Hbo as ->. reflexivity.
   - destruct He as (ien & Hen & _ & Hlook). rewrite app_nil_r in Hen. subst ien.
     specialize (Hlook Hcls). rewrite Hb in Hbo. unfold resolve in Hbo.
     destruct (env_find (s_env o) (s_name o)) as [[[n' d'] fl]|]; [|discriminate]. injection Hbo as ->.
-    destruct Hlook as (v & Hfv & Hvl). rewrite Hstrip in Hfv. rewrite Hfv in Hf. destruct Hf as (v' & Hf' & (_ & Hl & _)).
+    destruct Hlook as (v & Hfv & Hvl). rewrite Hstrip in Hfv. rewrite Hfv in Hf. destruct Hf as (v' & Hf' & (_ & (Hl & _) & _)).
     rewrite Hf'. cbn [option_map]. rewrite Hl, Hvl. reflexivity.
 Qed.
 
@@ -213,7 +214,7 @@ Proof.
   unfold EnvC in He. rewrite Hd in He. destruct He as (ien & Hen & Hcov & _). rewrite app_nil_r in Hen. subst ien.
   destruct (Hcov x Hx) as (f & v & Hf & Hv & Hent & (Hsb & Hlo)).
   apply in_app_or in Hf. destruct Hf as [Hf|[<-|[]]]; [|destruct Hv].
-  destruct (Forall2_in_l _ _ _ f Hcc Hf) as (f' & Hf' & Hff). destruct (Forall2_in_l _ _ _ v Hff Hv) as (v' & Hv' & (Hn & Hl & _)).
+  destruct (Forall2_in_l _ _ _ f Hcc Hf) as (f' & Hf' & Hff). destruct (Forall2_in_l _ _ _ v Hff Hv) as (v' & Hv' & (Hn & (Hl & _) & _)).
   exists f', v'. rewrite Hch. split; [exact Hf'|]. split; [exact Hv'|].
   subst x. unfold ent. cbn [fst snd]. split; [exact Hn|]. split; [exact Hl|].
   unfold decl_before. rewrite Hl. unfold lo, K in Hlo.
